@@ -407,7 +407,10 @@ def check_1d(chk, c, r, stats):
             bad = None
             for i in range(nb):
                 for k in range(nb):
-                    if (Cm[i][k] == 0) != (Cf[i][k] == 0) or abs(Cm[i][k] - Cf[i][k]) > 64 * (p + 1) ** 2 * EPS:
+                    # zero pattern: exact on "nice" spaces; on raw doubles an offset of 1e-16 that binary64 rounds to 0 is
+                    # a basis value of 1e-49 in exact arithmetic, so only the magnitude is compared there
+                    strict = not spd['kind'].startswith('raw')
+                    if (strict and (Cm[i][k] == 0) != (Cf[i][k] == 0)) or abs(Cm[i][k] - Cf[i][k]) > 64 * (p + 1) ** 2 * EPS:
                         bad = (i, k, float(Cm[i][k]), float(Cf[i][k]))
             chk.cov['certificates_checked'] += 1
             if bad:
@@ -514,7 +517,8 @@ def check_1d(chk, c, r, stats):
         vr, vi, x0 = [qparse(t) for t in r['cscalar']]
         er = eval_exact(sp, [qparse(t) for t in r['cre'].split()], x0)
         ei = eval_exact(sp, [qparse(t) for t in r['cim'].split()], x0)
-        if abs(float(vr - er)) > KB * EPS * (1 + abs(float(er))) * (p + 1) or abs(float(vi - ei)) > KB * EPS * (1 + abs(float(ei))) * (p + 1):
+        csc = max([abs(fl(t)) for t in r['cre'].split()] + [abs(fl(t)) for t in r['cim'].split()] + [1e-300])
+        if abs(float(vr - er)) > KB * EPS * csc * (p + 1) or abs(float(vi - ei)) > KB * EPS * csc * (p + 1):
             chk.violation('splines.Spline1D.eval:complex-scalar', 'scalar evaluation of a complex spline loses a part', dict(rep, observed=r['cscalar']))
     # polynomial reproduction (clamped): float evaluation of the interpolant of x^k
     if 'poly' in r:
